@@ -139,16 +139,51 @@ impl<'a> MessageParser<'a> {
             ok: T::parse_with_variant(&field_content, Some(&variant), Some(base_tag)).is_ok(),
         });
         // Use parse_with_variant for enum fields
-        T::parse_with_variant(&field_content, Some(&variant), Some(base_tag)).map_err(|e| {
-            ParseError::InvalidFieldFormat(Box::new(InvalidFieldFormatError {
-                field_tag: full_tag,
-                component_name: "field".to_string(),
-                value: field_content,
-                format_spec: "field format".to_string(),
+        let parsed = T::parse_with_variant(&field_content, Some(&variant), Some(base_tag))
+            .map_err(|e| {
+                ParseError::InvalidFieldFormat(Box::new(InvalidFieldFormatError {
+                    field_tag: full_tag.clone(),
+                    component_name: "field".to_string(),
+                    value: field_content.clone(),
+                    format_spec: "field format".to_string(),
+                    position: Some(self.position),
+                    inner_error: e.to_string(),
+                }))
+            })?;
+        self.check_option_preserved(&parsed, &full_tag, &field_content)?;
+        Ok(parsed)
+    }
+
+    /// The option letter written in the message decides the variant: a value that would be
+    /// serialised under another tag means the content was re-interpreted as a different option
+    fn check_option_preserved<T: SwiftField>(
+        &self,
+        parsed: &T,
+        full_tag: &str,
+        content: &str,
+    ) -> Result<(), ParseError> {
+        let emitted = parsed.to_swift_string();
+        if emitted.starts_with(&format!(":{}:", full_tag)) {
+            return Ok(());
+        }
+        let emitted_tag = emitted
+            .get(1..)
+            .and_then(|rest| rest.split(':').next())
+            .unwrap_or("")
+            .to_string();
+        Err(ParseError::InvalidFieldFormat(Box::new(
+            InvalidFieldFormatError {
+                field_tag: full_tag.to_string(),
+                component_name: "option".to_string(),
+                value: content.to_string(),
+                format_spec: format!("content valid for field {}", full_tag),
                 position: Some(self.position),
-                inner_error: e.to_string(),
-            }))
-        })
+                inner_error: format!(
+                    "content of field {} is not valid for this option (it reads as field {})",
+                    full_tag, emitted_tag
+                ),
+            },
+        )))
     }
 
     /// Parse an optional field with variant detection
@@ -168,14 +203,15 @@ impl<'a> MessageParser<'a> {
                     let parsed = T::parse_with_variant(&content, Some(&variant), Some(base_tag))
                         .map_err(|e| {
                             ParseError::InvalidFieldFormat(Box::new(InvalidFieldFormatError {
-                                field_tag: full_tag,
+                                field_tag: full_tag.clone(),
                                 component_name: "field".to_string(),
-                                value: content,
+                                value: content.clone(),
                                 format_spec: "field format".to_string(),
                                 position: Some(self.position),
                                 inner_error: e.to_string(),
                             }))
                         })?;
+                    self.check_option_preserved(&parsed, &full_tag, &content)?;
                     Ok(Some(parsed))
                 } else {
                     Ok(None)
